@@ -88,6 +88,7 @@ type fakeIdp struct {
 	idTokenHook func(claims map[string]any, req *authReq) (string, bool)
 	omitIDToken bool
 	omitRefreshToken bool // the code grant answers without refresh_token (optional per RFC 6749 §5.1)
+	authTimeAgo      time.Duration // when set, ID tokens carry auth_time = now - authTimeAgo
 	omitNewRefresh   bool // the NEXT refresh grant answers with a new access token but no refresh_token (optional per RFC 6749 §6); one-shot
 	jwksNoAlg   bool
 	extraJwks   []map[string]any
@@ -324,6 +325,9 @@ func (ip *fakeIdp) token(w http.ResponseWriter, r *http.Request) {
 		claims := map[string]any{"sub": sub, "iss": ip.issuer, "aud": req.ClientID, "nonce": req.Nonce, "acr": req.Acr, "iat": iat.Unix(), "exp": exp.Unix(), "jti": "jti-" + call.Code}
 		if ip.sidRequired {
 			claims["sid"] = req.Sid
+		}
+		if ip.authTimeAgo != 0 { // the end user authenticated at the provider that long ago (an old single-sign-on session answers this login)
+			claims["auth_time"] = iat.Add(-ip.authTimeAgo).Unix()
 		}
 		var idt string
 		handled := false
